@@ -42,6 +42,16 @@ SrcTid(t, r) == LET S == GrowN(SegLinks(t), {t.idn[r]})
 ExpNodes(t, kind) == {<<NodeOf(t, kind, t.idn[r]), t.time[r], 10 * r + 1, 10 * r + 2, 100 + r>> : r \in 1..t.R}
 \* track labels of the source, for tables that carry a (valid) track id column
 ExpTids(t, kind) == {<<NodeOf(t, kind, t.idn[r]), SrcTid(t, r)>> : r \in 1..t.R}
+\* source lineage labels of a CONSISTENT lineage column: 70 + first row of the row's connected component
+AllLinks(t) == {<<t.par[r], t.idn[r]>> : r \in {q \in 1..t.R : t.par[q] # 0}}
+SrcLid(t, r) == LET S == GrowN(AllLinks(t), {t.idn[r]})
+                    rows == {q \in 1..t.R : t.idn[q] \in S}
+                IN 70 + (CHOOSE q \in rows : \A p \in rows : q <= p)
+ExpLids(t, kind) == {<<NodeOf(t, kind, t.idn[r]), SrcLid(t, r)>> : r \in 1..t.R}
+\* C05 after construction by import: whatever a source lineage column said, two imported nodes carry the same lineage id
+\* iff they are connected (lids: set of <<node, id>>, E: set of imported edges)
+LidsOK(lids, E) == \A a \in lids : \A b \in lids :
+                      (a[2] = b[2]) <=> (b[1] \in GrowN(E, {a[1]}))
 ExpEdges(t, kind) == {<<NodeOf(t, kind, t.par[r]), NodeOf(t, kind, t.idn[r])>> : r \in {q \in 1..t.R : t.par[q] # 0}}
 ImportOK(t, kind, drop, res) ==
     IF WellFormed(t, drop)
